@@ -49,6 +49,8 @@ GROUP_PROPS = {
 
 def attribute(prop, scen, rej):
     fam = scen.get('fam', prop)
+    if PROPS.get(fam, {}).get('own_attribution'):
+        return {fam}       # single-property families with their own trace specification
     evn = rej['event'].get('ev')
     if evn == 'Leak':       # goroutines left behind after the connection was torn down
         return {'C10', 'C14'} | ({fam} if fam in ('C17', 'C18', 'C19') else set())
